@@ -446,7 +446,11 @@ class Message:
         if self.code.is_request():
             return self.copy(payload=payload, mid=None, block1=blockopt)
         else:
-            return self.copy(payload=payload, mid=None, block2=blockopt)
+            block = self.copy(payload=payload, mid=None, block2=blockopt)
+            # With the message ID goes the type an earlier transmission of the
+            # whole response left on it: the block answers a request of its own
+            block.mtype = None
+            return block
 
     def _append_request_block(self, next_block):
         """Modify message by appending another block"""
